@@ -93,7 +93,10 @@ PtOK(r) == \E c \in {[F |-> St(r.t, r.st, r.o), p |-> V(r.t, r.p), s |-> V(r.t, 
         /\ AbsLe(Sb(Mul(s[1], Mul(den[1], w)), num[1]), Mul(Mul(tolx, Add(One, Abs(s[1]))), Abs(Mul(den[1], w))))
         /\ AbsLe(Sb(Mul(s[2], Mul(den[2], w)), num[2]), Mul(Mul(toly, Add(One, Abs(s[2]))), Abs(Mul(den[2], w))))
         \* the ray through that screen position passes through the point, and its points project back to it
+        /\ Unit(t, dir)
         /\ OnLine(p, pos, dir, Mul(tolm, Add(One, MaxAbsRow(p))))
+        \* ... as a ray: a point in front of the eye plane is reached at a non-negative parameter
+        /\ Le(p[3], D!DZero) => Le(D!DNeg(Mul(tolm, Add(One, MaxAbsRow(p)))), DotV(VSub(p, pos), dir))
         /\ Near(V(t, r.s2), s, Mul(D!DScale(tolm, 2), Add(One, MaxAbsRow(s))))
         /\ Near(V(t, r.back), s, Mul(D!DScale(tolm, 2), Add(One, MaxAbsRow(s))))
         \* screenRadius and worldRadius are inverse, and scale by near / depth
